@@ -95,6 +95,8 @@ def iter_sets(tier, shard, nshards):
                     else:
                         for a in SA:
                             for b in SB:
+                                if naming == "differing-prefix" and len(a[0]) != len(b[0]):
+                                    continue  # the shared last name would sit at two different positions: rightly refused
                                 for ta in TA:
                                     for tb in TB:
                                         if idx % nshards == shard:
